@@ -35,6 +35,7 @@ WITNESSES = [
     ("MC_Aggregators", "MC_Aggregators_vec", "W_NoMissing", "OrderLemmas on vectors without missing values (C15)"),
     ("MC_Contingency", "MC_Contingency_quick", "W_PerfectTable", "PerfectTable: tables without misses and false alarms (C06)"),
     ("MC_Scripts", "MC_Scripts_exp", "W_ExpandPlaces", "ExpandSound: some observation is placed (C20)"),
+    ("MC_Scripts", "MC_Scripts_exp", "W_ExpandHalfHour", "ExpandSound: an observation is placed at a fractional lead time (C20)"),
     ("MC_Scripts", "MC_Scripts_acc", "W_AccWindow", "AccumulateIsPreAggSum on accepted option sets (C20)"),
 ]
 
